@@ -18,7 +18,8 @@ fn model_change(l: &mut Vec<u8>, keys: [u8; 2], new: u8) -> bool {
   }
 }
 
-pub fn collections(_cex: &Value) -> Result<String, String> {
+pub fn collections(cex: &Value) -> Result<String, String> {
+  let only: Option<String> = cex.get("only").and_then(Value::as_str).map(str::to_owned);
   let r = no_panic(|| -> Vec<String> {
     let mut log = Vec::new();
     // ops: 0 append, 1 prepend, 2 remove, 3 update, 4 replace(cur, upd)
@@ -159,6 +160,62 @@ pub fn collections(_cex: &Value) -> Result<String, String> {
         }
       }
     }
+    // OneOrSet::append against a list model, on elements whose key is a projection (a refused duplicate must leave the stored element
+    // as it was), from the One state and from the Set state
+    {
+      #[derive(Clone, Debug, PartialEq, Eq, serde::Serialize, serde::Deserialize)]
+      struct Kv(u8, u8);
+      impl identity_core::common::KeyComparable for Kv {
+        type Key = u8;
+        fn key(&self) -> &u8 {
+          &self.0
+        }
+      }
+      for start in [vec![Kv(1, 10)], vec![Kv(1, 10), Kv(2, 20)]] {
+        for item in [Kv(1, 11), Kv(2, 21), Kv(3, 30)] {
+          let mut model = start.clone();
+          let mut s: OneOrSet<Kv> = if start.len() == 1 { OneOrSet::new_one(start[0].clone()) } else { OneOrSet::try_from(start.clone()).unwrap() };
+          let want = !model.iter().any(|e| e.0 == item.0);
+          if want {
+            model.push(item.clone());
+          }
+          let got = s.append(item.clone());
+          let held: Vec<Kv> = s.iter().cloned().collect();
+          if got != want || held != model {
+            log.push(format!("[append] OneOrSet {start:?}.append({item:?}) = {got}, holds {held:?}; the list model gives {want}, {model:?}"));
+          }
+        }
+      }
+      // collecting exactly one element into OneOrMany gives One whatever the iterator's size hint says
+      let singles: Vec<(&str, OneOrMany<u8>)> = vec![
+        ("filter", [1u8, 2, 3].into_iter().filter(|x| *x == 2).collect()),
+        ("flat_map", [2u8].into_iter().flat_map(|x| vec![x]).collect()),
+        ("take_while", [2u8, 9].into_iter().take_while(|x| *x < 5).collect()),
+        ("from_fn", {
+          let mut n = 0;
+          std::iter::from_fn(move || {
+            n += 1;
+            if n == 1 {
+              Some(2u8)
+            } else {
+              None
+            }
+          })
+          .collect()
+        }),
+        ("exact", vec![2u8].into_iter().collect()),
+      ];
+      for (how, m) in singles {
+        if m != OneOrMany::One(2u8) || serde_json::to_string(&m).unwrap() != "2" {
+          log.push(format!("[collect] one element collected through {how} gives {m:?} / {}", serde_json::to_string(&m).unwrap()));
+        }
+      }
+      let none: OneOrMany<u8> = [1u8].into_iter().filter(|x| *x == 2).collect();
+      let two: OneOrMany<u8> = [1u8, 2, 3].into_iter().filter(|x| *x != 2).collect();
+      if none.len() != 0 || two != OneOrMany::Many(vec![1, 3]) {
+        log.push(format!("[collect] filtered collections give {none:?} / {two:?}"));
+      }
+    }
     let mapped = OneOrSet::new_set(OrderedSet::try_from(vec![1u8, 2]).unwrap()).unwrap().map(|_| 7u8);
     if mapped.len() != 1 || serde_json::to_string(&mapped).unwrap().starts_with('[') {
       log.push("OneOrSet::map collapsing keys does not normalise to One".into());
@@ -167,7 +224,13 @@ pub fn collections(_cex: &Value) -> Result<String, String> {
   });
   match r {
     Err(msg) => Ok(format!("collections panicked: {msg}")),
-    Ok(log) if !log.is_empty() => Ok(format!("{} deviations, e.g. {}", log.len(), log[..log.len().min(3)].join("; "))),
-    Ok(_) => Err("collections battery: all expectations met".to_owned()),
+    Ok(log) => {
+      let log: Vec<String> = log.into_iter().filter(|l| only.as_ref().map(|o| l.contains(o.as_str())).unwrap_or(true)).collect();
+      if log.is_empty() {
+        Err("collections battery: all expectations met".to_owned())
+      } else {
+        Ok(format!("{} deviations, e.g. {}", log.len(), log[..log.len().min(3)].join("; ")))
+      }
+    }
   }
 }
